@@ -677,3 +677,9 @@ P("C20", CO, _OLD_RS, "global_post_indices = global_post_indices.reshape(num_pos
 _OLD_RP = "pre_rows = pre_rows.loc[pre_rows.index.repeat(num_post)].reset_index(drop=True)"
 P("C20", CO, _OLD_RP, "pre_rows = pre_rows.loc[np.repeat(pre_rows.index, num_post)].reset_index(drop=True)")
 B("C20", CO, _OLD_RP, "pre_rows = pre_rows.loc[np.tile(pre_rows.index, num_post)].reset_index(drop=True)", "R-C20-layout")
+# the dunder guard of __getattr__ in other spellings (decided on the names deepcopy / pickle look up)
+_OLD_DG = '        if key.startswith("__"):\n            return super().__getattribute__(key)'
+P("C18", BASE, _OLD_DG, '        if key[:2] == "__":\n            return object.__getattribute__(self, key)')
+P("C18", BASE, _OLD_DG, '        if key.startswith("__") and key.endswith("__"):\n            return super().__getattribute__(key)')
+B("C18", BASE, _OLD_DG, '        if key == "__deepcopy__":\n            return super().__getattribute__(key)', "R-C18-getattr")
+B("C18", BASE, _OLD_DG, '        if key.startswith("___"):\n            return super().__getattribute__(key)', "R-C18-getattr")
